@@ -763,8 +763,10 @@ def run(ctx):
         "implementation's blocks",
         "the kernel _nsi_betweenness behind the three betweenness delegates is C03's model "
         "(Pyunicorn.NetBetw, imported): its forward/backward sweeps = pair dependencies is C03's "
-        "open proof item; here it is compared with the definition inside Lean on every case and "
-        "with the implementation",
+        "theorem NetBetw.sweepDiff_eq_contribDef (round 5), used by nsiCrossBetweenness_eq_def / "
+        "crossBetweenness_eq_count (round 5b) - no longer a hypothesis; the kernel model is still "
+        "compared with the definition inside Lean on a sample of the cases and with the "
+        "implementation on every case; the tie of that model to numerics.pyx is C03's",
         "Pyunicorn.Net (model of Network.degree / average_path_length / closeness / "
         "local_clustering / transitivity used by the whole_* theorems) is tied to the "
         "implementation by C03's correspondence, not by this check"]
@@ -873,9 +875,12 @@ def run(ctx):
                              f"w={enc_vec(c.w)} L1={L1} L2={L2} :: model={mv[:120]} impl={str(iv)[:120]}"
                              for nm, wt, c, L1, L2, iv, mv in bad[:6]))
     ctx.extra["method_results_compared"] = ncmp
-    # the hypothesis of `nsiCrossBetweenness_eq_def_partial`, discharged on a sample of the cases:
-    # the kernel model and the published double sum over enumerated shortest paths (exponential
-    # time), both in exact rationals inside Lean
+    # round 4: the hypothesis of `nsiCrossBetweenness_eq_def_partial`, discharged on a sample of the
+    # cases.  Round 5b: no longer a hypothesis of any theorem (`nsiCrossBetweenness_eq_def`,
+    # `crossBetweenness_eq_count` use C03's `NetBetw.sweepDiff_eq_contribDef`); kept as a
+    # correspondence between the two executable sides of those theorems - the kernel model and the
+    # published double sum over enumerated shortest paths (exponential time), both in exact
+    # rationals inside Lean
     small = [i for i, (c, L1, L2) in enumerate(cases) if c.n <= 6 and not c.directed]
     mid = [i for i, (c, L1, L2) in enumerate(cases) if 7 <= c.n <= 8 and not c.directed]
     pick = rng.sample(small, min(len(small), 90 if quick else 900)) \
@@ -891,7 +896,8 @@ def run(ctx):
                 defbad.append((nm, c, L1, L2, got[nm], got[nm + "_def"]))
     ctx.obligation(f"model-internal: Lean model of the kernel behind cross_/internal_/nsi_cross_"
                    f"betweenness == the published double sum over enumerated shortest paths, exact "
-                   f"rationals ({ndef} vectors)", "correspondence", not defbad,
+                   f"rationals ({ndef} vectors; proved for all inputs as nsiCrossBetweenness_eq_def, "
+                   f"not a hypothesis of a theorem any more)", "correspondence", not defbad,
                    "\n".join(f"{nm} A={enc_mat(c.A)} w={enc_vec(c.w)} L1={L1} L2={L2} :: "
                              f"kernel={a[:120]} def={b[:120]}" for nm, c, L1, L2, a, b in defbad[:5]))
     ctx.extra["betweenness_def_vectors"] = ndef
